@@ -656,7 +656,8 @@ def sample_float(rng):
     return rng.choice([0.0, -0.0, 1.5, -2.25, 1e300, 1e-300, float('inf'), float('-inf'), 3.0, 0.1, 5.0])
 
 
-JUNK = [None, True, 0, -3, 1.5, 'junk', b'by', [], [1, 'a'], {'k': 1}, (1, 2), [[1]], {'x': {'y': 2}}, '5', [None]]
+JUNK = [None, True, 0, -3, 1.5, 'junk', b'by', [], [1, 'a'], {'k': 1}, (1, 2), [[1]], {'x': {'y': 2}}, '5', [None],
+        {'n': 250, 'm': {'k': 3}}, [{'a': 1}, [2, 'b']], {'s': 'txt', 'l': [1, 2]}]
 
 
 def sample_value(ast, world: World, rng, valid_p=0.8, alphabet='mixed', depth=0):
